@@ -7,15 +7,41 @@ import FwdVerif.Lemmas.C08Exact
 namespace FwdVerif
 namespace C08
 
-/-- a header that does not leave an address missing -/
-def HdrOK (h : Header) : Prop := h.isLocal = true ∨ (h.source.isSome = true ∧ h.dest.isSome = true)
+/-- the reader sets both addresses of a header or neither -/
+def HdrOK (h : Header) : Prop :=
+  (h.source.isSome = true ∧ h.dest.isSome = true) ∨ (h.source = none ∧ h.dest = none)
 
-theorem HdrOK.sel {h : Header} (hk : HdrOK h) :
-    remoteSel (.ok h) ≠ .missing ∧ localSel (.ok h) ≠ .missing := by
+theorem ofOpt_ne_missing (o : Option Addr) : ofOpt o ≠ .missing := by
+  cases o <;> simp [ofOpt]
+
+/-- the address selection of `Conn` never yields a nil `net.Addr`, whatever the header read gave -/
+theorem sel_ne_missing (st : HdrState) : remoteSel st ≠ .missing ∧ localSel st ≠ .missing := by
+  cases st with
+  | failed e => exact ⟨by simp [remoteSel], by simp [localSel]⟩
+  | ok h =>
+    unfold remoteSel localSel
+    constructor <;> (dsimp only; split)
+    · simp
+    · exact ofOpt_ne_missing _
+    · simp
+    · exact ofOpt_ne_missing _
+
+/-- a header marked local, or lacking one address (hence both), selects the socket's addresses -/
+theorem HdrOK.headerless {h : Header} (hk : HdrOK h)
+    (hna : h.isLocal = true ∨ h.source = none ∨ h.dest = none) :
+    remoteSel (.ok h) = .sock ∧ localSel (.ok h) = .sock := by
   unfold remoteSel localSel
-  rcases hk with hl | ⟨h1, h2⟩
+  dsimp only
+  by_cases hl : h.isLocal = true
   · simp [hl]
-  · cases hs : h.source <;> cases hd : h.dest <;> simp_all [ofOpt] <;> split <;> simp
+  · have hnone : h.source = none ∧ h.dest = none := by
+      rcases hk with ⟨h1, h2⟩ | h0
+      · rcases hna with h' | h' | h'
+        · exact absurd h' hl
+        · rw [h'] at h1; cases h1
+        · rw [h'] at h2; cases h2
+      · exact h0
+    simp [hl, hnone.1, hnone.2, ofOpt]
 
 theorem parseV1Header_ok {b : Bytes} {h : Header} (hp : parseV1Header b = .ok h) :
     h.version = 1 ∧ h.isLocal = false ∧ h.source.isSome = true ∧ h.dest.isSome = true := by
@@ -50,7 +76,7 @@ theorem parseKeep_ok {b rest r : Bytes} {h : Header} (hp : parseKeep b rest = .o
     injection hp with h1 h2
     subst h1; subst h2
     obtain ⟨hv, _, hs, hd⟩ := parseV1Header_ok hq
-    exact ⟨rfl, hv, Or.inr ⟨hs, hd⟩⟩
+    exact ⟨rfl, hv, Or.inl ⟨hs, hd⟩⟩
 
 /-- an accepted v1 header: the consumed part ends with a CRLF found inside the first 107 bytes -/
 theorem readV1S_ok {bs rest : Bytes} {h : Header} (hr : readV1S bs = .ok (h, rest)) :
@@ -82,7 +108,7 @@ theorem readV1S_ok {bs rest : Bytes} {h : Header} (hr : readV1S bs = .ok (h, res
       injection hr with h1 h2
       obtain ⟨m, hm1, hm2, hm3, hm4, _, hm6⟩ := untilS_ok hu
       subst h1
-      exact ⟨rfl, Or.inl rfl, m, by omega, by omega, hm3, hm4, by rw [← h2, hm6]⟩
+      exact ⟨rfl, Or.inr ⟨rfl, rfl⟩, m, by omega, by omega, hm3, hm4, by rw [← h2, hm6]⟩
   · split at hr
     · split at hr
       · rename_i h32
@@ -94,11 +120,11 @@ theorem readV1S_ok {bs rest : Bytes} {h : Header} (hr : readV1S bs = .ok (h, res
       · cases hr
     · split at hr
       · split at hr
-        · rename_i h24
+        · rename_i h22
           split at hr
           · rename_i hc
             obtain ⟨e1, e2, e3⟩ := parseKeep_ok hr
-            exact ⟨e2, e3, 23, by omega, by omega, by omega, hc, e1⟩
+            exact ⟨e2, e3, 21, by omega, by omega, by omega, hc, e1⟩
           · exact line (by omega) (by omega) hr
         · cases hr
       · cases hr
@@ -269,56 +295,26 @@ theorem readHeaderS_consumed {bs rest : Bytes} {h : Header} (hr : readHeaderS bs
       · cases hr
   · cases hr
 
-theorem v2Hdr_ok {b12 fam : UInt8} {n : Nat} {body : Bytes}
-    (href : v2Refusal b12 fam n = none)
-    (hcls : (b12.toNat % 16 ≥ 2 || (b12.toNat % 16 == 1 &&
-        !(fam == 0x11 || fam == 0x12 || fam == 0x21 || fam == 0x22 || fam == 0x31 || fam == 0x32))) = false) :
-    HdrOK (v2Hdr b12 fam body) := by
+theorem v2Hdr_ok (b12 fam : UInt8) (body : Bytes) : HdrOK (v2Hdr b12 fam body) := by
   unfold v2Hdr
-  unfold v2Refusal at href
-  dsimp only at href ⊢
-  by_cases hc0 : (b12.toNat % 16 == 0) = true
-  · simp only [hc0, if_true]; exact Or.inl rfl
-  · simp only [hc0, if_false, Bool.false_eq_true]
-    have hc1 : (b12.toNat % 16 == 1) = true := by
-      have h0 : b12.toNat % 16 ≠ 0 := by simpa using hc0
-      simp at hcls
-      have := hcls.1
-      simp; omega
-    simp only [hc1, if_true, Bool.true_and] at href hcls ⊢
-    by_cases h4 : (fam == 0x11 || fam == 0x12) = true
-    · simp only [h4, if_true]; exact Or.inr ⟨rfl, rfl⟩
-    · simp only [h4, if_false, Bool.false_eq_true] at href ⊢
-      by_cases h6 : (fam == 0x21 || fam == 0x22) = true
-      · simp only [h6, if_true]; exact Or.inr ⟨rfl, rfl⟩
-      · simp only [h6, if_false, Bool.false_eq_true] at href ⊢
-        exfalso
-        by_cases hz : (n == 0) = true
-        · simp [hz] at href
-        · simp only [hz, if_false, Bool.false_eq_true] at href
-          by_cases hu : (fam == 0x31 || fam == 0x32) = true
-          · simp [hu] at href
-          · simp at hcls h4 h6 hu
-            have := hcls.2
-            simp_all
+  dsimp only
+  split
+  · exact Or.inr ⟨rfl, rfl⟩
+  · split
+    · exact Or.inl ⟨rfl, rfl⟩
+    · split
+      · exact Or.inl ⟨rfl, rfl⟩
+      · exact Or.inr ⟨rfl, rfl⟩
 
-theorem readHeaderS_addr {bs rest : Bytes} {h : Header} (hr : readHeaderS bs = .ok (h, rest))
-    (hc : isV2NilAddr bs = false) : HdrOK h := by
+/-- every accepted header, for every input, has both addresses or neither -/
+theorem readHeaderS_addr {bs rest : Bytes} {h : Header} (hr : readHeaderS bs = .ok (h, rest)) : HdrOK h := by
   unfold readHeaderS at hr
   split at hr
   · rename_i h13
-    rw [isPrefixOf_take v2Ident bs 13 (by decide), isPrefixOf_take v1Ident bs 13 (by decide)] at hr
     split at hr
-    · rename_i hv2
-      obtain ⟨h16, hver, hn, hle, href, hh, hrest⟩ := readV2S_ok hr
+    · obtain ⟨_, _, _, _, _, hh, _⟩ := readV2S_ok hr
       rw [hh]
-      apply v2Hdr_ok href
-      unfold isV2NilAddr at hc
-      rw [hv2, getElem?_getD (show 12 < bs.length by omega), getElem?_getD (show 13 < bs.length by omega)] at hc
-      simp only [Bool.true_and] at hc
-      have : ((bs.getD 12 0).toNat / 16 == 2) = true := by rw [hver]; rfl
-      rw [this] at hc
-      simpa using hc
+      exact v2Hdr_ok _ _ _
     · split at hr
       · exact (readV1S_ok hr).2.1
       · cases hr
